@@ -387,7 +387,7 @@ def callee_info(repo, f):
                 offset = 0
             else:
                 offset = 1
-        return params, offset
+        return params, offset, g.node
     return info
 
 
@@ -525,6 +525,14 @@ def _substitute_reference(repo, f, entry):
             return False
     except (SyntaxError, RecursionError):
         return False
+    def docnode(fn):
+        b = fn.body
+        return b[0] if b and isinstance(b[0], ast.Expr) and isinstance(b[0].value, ast.Constant) and isinstance(b[0].value.value, str) else None
+    dc, dr = docnode(f.node), docnode(rnode)
+    if dr is not None:
+        rnode.body = rnode.body[1:]
+    if dc is not None:
+        rnode.body = [dc] + rnode.body          # the function's own docstring stays (C06.DOC reads it)
     link_parents(rnode)
     rnode._parent = getattr(f.node, '_parent', None)
     f.node = rnode
